@@ -2,6 +2,7 @@ package main
 
 import (
 	"fmt"
+	"go/token"
 	"go/types"
 	"strings"
 
@@ -138,6 +139,24 @@ func runC17(c *Ctx, r *Report, tier string) {
 	r.Check(nArg >= 2, "COLUMN", c.fname(wh), "argument rows use the description column", c.pos(wh.Pos()), "padding and prefix derive from descriptionStart()+paddingBeforeOption", fmt.Sprintf("only %d uses found", nArg))
 
 	// ---- MEASURE
+	// the measuring walk covers the whole active chain (every level WriteHelp prints), not a bounded number of levels
+	if eag := c.mustFn(r, "(*Command).eachActiveGroup"); eag != nil {
+		okWalk := false
+		for _, in := range c.instrs(eag, c.isCallTo("(*Command).eachActiveGroup")) {
+			a := in.(ssa.CallInstruction).Common().Args
+			if strings.HasPrefix(c.term(a[0]), "Command.Active(P0)") && c.term(a[1]) == "P1" {
+				okWalk = true
+			}
+		}
+		for _, l := range c.loopsDeep(eag) {
+			for _, in := range l.Header.Instrs {
+				if ph, ok := in.(*ssa.Phi); ok && strings.Contains(c.term(ph), "Command.Active(phi↺)") {
+					okWalk = true
+				}
+			}
+		}
+		r.Check(okWalk, "MEASURE", c.fname(eag), "the active-group walk follows Command.Active to the end of the chain", c.pos(eag.Pos()), "recursion on c.Active with the same callback, or a loop stepping by Active", "eachActiveGroup visits a bounded number of levels: a deeper active command is printed but not measured, so the padding count can go negative (strings.Repeat panics)")
+	}
 	var meas *ssa.Function
 	for _, in := range c.instrs(gai, c.isCallTo("(*Command).eachActiveGroup")) {
 		for _, f := range closureArgs(in.(ssa.CallInstruction)) {
@@ -342,5 +361,58 @@ func (c *Ctx) wrapCutRule(r *Report, rule string, wt *ssa.Function, lVal ssa.Val
 	}
 	if n == 0 {
 		r.Fail(rule, wn, "cut sites", c.pos(wt.Pos()), "no line[:pos] cut found")
+	}
+	// every paragraph is used trimmed: an element of the Split result is only ever an argument of strings.TrimSpace
+	nEl := 0
+	for _, b := range c.blocks(wt) {
+		for _, in := range b.Instrs {
+			v, ok := in.(ssa.Value)
+			if !ok || !strings.HasPrefix(c.term(v), "idx(call:strings.Split(P0, \"\\n\")") || v.Referrers() == nil {
+				continue
+			}
+			if _, isAddr := in.(*ssa.IndexAddr); isAddr {
+				continue
+			}
+			nEl++
+			for _, ref := range *v.Referrers() {
+				if _, dbg := ref.(*ssa.DebugRef); dbg {
+					continue
+				}
+				ci, isCall := ref.(ssa.CallInstruction)
+				r.Check(isCall && c.calleeName(ci.Common()) == "strings.TrimSpace", rule, wn, "a paragraph is used only after trimming", c.ipos(ref), "TrimSpace(paragraph)", "a paragraph of the description is used untrimmed: its own leading/trailing blanks shift it off the common column")
+			}
+		}
+	}
+	if nEl == 0 {
+		r.Fail(rule, wn, "paragraph elements", c.pos(wt.Pos()), "no element of strings.Split(s, \"\\n\") found")
+	}
+	// a piece appended to a non-empty line is always preceded by newline + prefix: the join is skipped only when the line is empty
+	nJ := 0
+	for _, b := range c.blocks(wt) {
+		for _, in := range b.Instrs {
+			bo, ok := in.(*ssa.BinOp)
+			if !ok || bo.Op != token.ADD || c.term(bo.Y) != `("\n" + P2)` || bo.Referrers() == nil {
+				continue
+			}
+			for _, ref := range *bo.Referrers() {
+				ph, ok := ref.(*ssa.Phi)
+				if !ok {
+					continue
+				}
+				nJ++
+				want := "nonempty(" + c.term(bo.X) + ")"
+				for i, e := range ph.Edges {
+					if e == ssa.Value(bo) {
+						continue
+					}
+					l, has := c.edgeLitTo(ph.Block().Preds[i], ph.Block())
+					okE := c.resolve(e) == c.resolve(bo.X) && has && !l.Pos && l.Term == want
+					r.Check(okE, rule, wn, "continuation pieces are indented: newline + prefix is skipped only for an empty line", c.ipos(ph), "the un-joined edge is taken exactly under len(line) == 0", "a piece can follow a non-empty line without newline + prefix (edge condition "+trunc(l.String(), 100)+"): the continuation starts at column 0")
+				}
+			}
+		}
+	}
+	if nJ < 2 {
+		r.Fail(rule, wn, "join sites", c.pos(wt.Pos()), fmt.Sprintf("%d joins `line += \"\\n\" + prefix` found, expected 2", nJ))
 	}
 }
